@@ -296,6 +296,125 @@ theorem find?_some_iff_mem {β : Type} [DecidableEq β] (f : Const → β) (l : 
   · rintro ⟨hc, rfl⟩
     exact find?_key_unique f l hnd c hc
 
+/-! ## TrimPrefix -/
+
+theorem isPrefixOf_append (T s : Name) : T.isPrefixOf (T ++ s) = true := by
+  induction T with
+  | nil => simp [List.isPrefixOf]
+  | cons a r ih => simp [ih]
+
+theorem eq_append_of_isPrefixOf (T n : Name) (h : T.isPrefixOf n = true) : n = T ++ n.drop T.length := by
+  induction T generalizing n with
+  | nil => simp
+  | cons a r ih =>
+    cases n with
+    | nil => simp [List.isPrefixOf] at h
+    | cons b m =>
+      simp only [List.isPrefixOf, Bool.and_eq_true, beq_iff_eq] at h
+      simp only [List.length_cons, List.drop_succ_cons, List.cons_append]
+      rw [h.1, ← ih m h.2]
+
+/-- the prefix is removed ONCE: whatever follows it stays, a second occurrence of the type name included -/
+theorem trim_append (T s : Name) : trim T (T ++ s) = s := by
+  unfold trim
+  rw [isPrefixOf_append]
+  simp
+
+/-- a name that does not start with the type name (case-sensitively) is left alone -/
+theorem trim_of_not_prefix (T n : Name) (h : T.isPrefixOf n = false) : trim T n = n := by
+  unfold trim; simp [h]
+
+/-- either nothing was trimmed, or the name is the type name followed by the trimmed name -/
+theorem trim_decomp (T n : Name) : (T.isPrefixOf n = false ∧ trim T n = n) ∨ (T.isPrefixOf n = true ∧ n = T ++ trim T n) := by
+  cases h : T.isPrefixOf n
+  · exact Or.inl ⟨rfl, trim_of_not_prefix T n h⟩
+  · refine Or.inr ⟨rfl, ?_⟩
+    unfold trim; simp only [h, ↓reduceIte]
+    exact eq_append_of_isPrefixOf T n h
+
+theorem trim_eq_nil_iff (T n : Name) : trim T n = [] ↔ n = [] ∨ n = T := by
+  constructor
+  · intro h
+    rcases trim_decomp T n with ⟨_, h2⟩ | ⟨_, h2⟩
+    · left; rw [← h2]; exact h
+    · right; rw [h2, h]; simp
+  · rintro (h | h)
+    · subst h; unfold trim; split <;> simp
+    · subst h
+      have := trim_append n []
+      simpa using this
+
+/-- among names that all carry the prefix, trimming is injective -/
+theorem trim_inj_prefixed (T a b : Name) (ha : T.isPrefixOf a = true) (hb : T.isPrefixOf b = true)
+    (h : trim T a = trim T b) : a = b := by
+  rcases trim_decomp T a with ⟨h1, _⟩ | ⟨_, h1⟩
+  · rw [ha] at h1; cases h1
+  rcases trim_decomp T b with ⟨h2, _⟩ | ⟨_, h2⟩
+  · rw [hb] at h2; cases h2
+  rw [h1, h2, h]
+
+/-- two DIFFERENT names have the same trimmed name only when one of them is the other with the type name
+    put in front of it (`TA` next to `A` for a type `T`) -/
+theorem trim_collision (T a b : Name) (hab : a ≠ b) (h : trim T a = trim T b) :
+    (a = T ++ b ∧ T.isPrefixOf b = false) ∨ (b = T ++ a ∧ T.isPrefixOf a = false) := by
+  rcases trim_decomp T a with ⟨pa, ha⟩ | ⟨pa, ha⟩ <;> rcases trim_decomp T b with ⟨pb, hb⟩ | ⟨pb, hb⟩
+  · exact absurd (by rw [← ha, ← hb, h]) hab
+  · right; exact ⟨by rw [hb, ← h, ha], pa⟩
+  · left; exact ⟨by rw [ha, h, hb], pb⟩
+  · exact absurd (trim_inj_prefixed T a b pa pb h) hab
+
+/-! ## the stale guard, line by line -/
+
+theorem has_zero (k : Kind) : k.has 0 = true := by
+  unfold Kind.has Kind.lo Kind.hi
+  have h1 : (0 : Int) < (2 : Int) ^ (k.bits - 1) := Int.pow_pos (by decide)
+  have h2 : (0 : Int) < (2 : Int) ^ k.bits := Int.pow_pos (by decide)
+  simp only [Bool.and_eq_true, decide_eq_true_eq]
+  split <;> omega
+
+/-- one guard line, for EVERY kind and EVERY pair of integers (boundary values of the kind included): the
+    compiler is silent exactly when the constant still has the printed value -/
+theorem guardLine_none_iff (k : Kind) (p : Int) (cur : Option Int) : guardLine k p cur = .none ↔ cur = some p := by
+  unfold guardLine
+  cases cur with
+  | none => simp
+  | some v =>
+    simp only [Option.some.injEq]
+    by_cases hd : v - p = 0
+    · have : v = p := by omega
+      subst this
+      simp [has_zero]
+    · constructor
+      · intro h
+        simp only [hd, ↓reduceIte] at h
+        split at h
+        · cases h
+        · split at h <;> cases h
+      · intro h; omega
+
+theorem guardFirst_none_iff (k : Kind) (cs : List Const) (cur : Name → Option Int) :
+    guardFirst k cs cur = .none ↔ guardOK k cs cur = true := by
+  induction cs with
+  | nil => simp [guardFirst, guardOK]
+  | cons c r ih =>
+    unfold guardFirst guardOK
+    simp only [List.all_cons, Bool.and_eq_true]
+    have hl := guardLine_none_iff k (printed k c.val) (cur c.name)
+    by_cases h : guardLine k (printed k c.val) (cur c.name) = .none
+    · rw [if_pos h]
+      have hc := hl.mp h
+      unfold guardOK at ih
+      rw [ih, hc]
+      simp
+    · rw [if_neg h]
+      constructor
+      · intro h'; exact absurd h' h
+      · rintro ⟨h1, _⟩
+        exfalso; apply h; apply hl.mpr
+        cases hcur : cur c.name with
+        | none => simp [hcur] at h1
+        | some v => simp [hcur] at h1; congr 1; omega
+
 /-! ## what WF gives -/
 
 structure WFfacts (i : Input) : Prop where
